@@ -47,7 +47,7 @@ var plans = map[string]propPlan{
 	},
 	"C06": {
 		Engine:   "curlsim",
-		Quick:    []flavPlan{{"plain", 20000, 200}, {"purego", 8000, 200}, {"racepurego", 1200, 25}},
+		Quick:    []flavPlan{{"plain", 14000, 200}, {"purego", 5000, 200}, {"racepurego", 800, 25}},
 		Thorough: []flavPlan{{"plain", 300000, 2000}, {"purego", 150000, 2000}, {"racepurego", 15000, 100}},
 		Rule: "one evaluation = one history of 4..16 calls (Absorb of 0..3 blocks in six trit patterns, Squeeze of 0..3 blocks, Clone, Reset with a new batch size, CopyState, and injected caller errors: empty batch, 65 lanes, trit count not a multiple of 243) over up to 4 live handles with batch sizes 1..64, " +
 			"each handle compared after every call with its own set of independent single-lane reference sponges; non-trivial if the history has at least two state-changing calls; distinct = distinct hashes of the executed call sequence (handle, call, sizes, pattern) among those. " +
